@@ -136,6 +136,10 @@ func (d *Decoder) decodeOBUs(pkt *rtp.Packet) ([][]byte, error) {
 		d.resetFragments()
 	} else {
 		d.firstPacketReceived = true
+
+		// the first OBU is not a continuation: fragments still pending belong to a
+		// temporal unit that lost its continuation and must not be joined with anything
+		d.resetFragments()
 	}
 
 	// last OBU will continue in next packet
